@@ -25,7 +25,7 @@ from .core import DEFAULT_ROOT, VERIF
 
 
 # whole-tree behaviour-preserving transformations (tools/benign_rename.py, benign_transform.py)
-WHOLE_TREE = ("rename-locals", "invert-if", "add-logging", "pass-stmts")
+WHOLE_TREE = ("rename-locals", "invert-if", "add-logging", "pass-stmts", "nest-and", "expand-aug", "rename-private")
 
 
 def _load_mutants():
@@ -72,7 +72,7 @@ def apply_edit(root, m):
         if p.returncode != 0:
             return f"rename transformation failed: {p.stderr[-200:]}"
         return None
-    if m.get("transform") in ("invert-if", "add-logging", "pass-stmts"):
+    if m.get("transform") in WHOLE_TREE:
         p = subprocess.run(
             [sys.executable, os.path.join(VERIF, "tools", "benign_transform.py"), root, m["transform"], root],
             capture_output=True, text=True,
